@@ -83,6 +83,15 @@ def run(tier):
     rows = read_ndjson(outs[0])
     v.sample(rows[len(rows) // 2])
 
+    # 2b. end-to-end through the real execution loop with a speculative policy: idempotence gate (a request
+    #     not marked idempotent never has two attempts in flight), bounded parallelism, distinct plan
+    #     targets among concurrent attempts, EmptyPlan only when nothing could be tried; judged by TLC (ExecProp)
+    import execloop
+    scen2 = execloop.generate(thorough, want_spec=True)
+    st2, xrows = execloop.run_and_judge(v, wd, scen2, "exec", "speculative execution through the execution loop")
+    v.add(traces_validated_against_impl=len(scen2), exec_loop_scenarios=len(scen2), trace_validation_states=st + st2)
+    v.sample({"exec_loop_record": {k: xrows[len(xrows) // 3][k] for k in ("pol", "idem", "maxspec", "plan", "evs")}})
+
     # self-test
     base = next((r_ for r_ in rows if any(e["k"] == "R" and e["r"] == "Ok" for e in r_["evs"]) and len(r_["evs"]) >= 4), None)
     if base is not None and not v.violations:
@@ -101,7 +110,7 @@ def run(tier):
         v.add(binding_selftest="record with a corrupted result and record ending in a hang both rejected")
     v.assumptions += ["executions are synthetic futures (sleep d, then outcome) under tokio's paused clock; virtual time unit 10 ms",
                       "tie order between timer and completions is chosen by futures::select! at random: each scenario is repeated, and the design model covers both orders",
-                      "the idempotence gate and 'no two executions use the same plan target' are properties of client/execution.rs and are exercised by the mock-cluster checks"]
+                      "phase 2b drives client/execution.rs (idempotence gate, shared plan) with synthetic attempts on dummy connections; frames on real sockets are the mock-cluster checks' subject"]
     return v.finish()
 
 
